@@ -115,9 +115,10 @@ impl Rec<'_> {
     /// inject `model` at (at, ifin) and record every AS step of the real simulator; `sched[n]` = links that are
     /// down when the (n+1)-th AS step is taken (the last entry stays in force): a `links` event is logged whenever
     /// the link state changes while the packet travels
-    fn inject(&mut self, w: &mut World, fam: &str, cls: &str, model: &StandardPath, src: u32, dst: u32, at: u32, ifin: u16, now: u32, sched: &[Vec<usize>]) -> Option<Box<ScionRawPacketView>> {
-        let Ok(dp) = world::encode_path(model) else { return None };
-        let Ok(mut pk) = world::packet(w.ia[src as usize], w.ia[dst as usize], dp) else { return None };
+    fn inject(&mut self, w: &mut World, fam: &str, cls: &str, model: &StandardPath, src: u32, dst: u32, at: u32, ifin: u16, now: u32, sched: &[Vec<usize>]) -> (Option<Box<ScionRawPacketView>>, Vec<(StandardPath, u32, u16)>) {
+        let mut snaps: Vec<(StandardPath, u32, u16)> = vec![];
+        let Ok(dp) = world::encode_path(model) else { return (None, snaps) };
+        let Ok(mut pk) = world::packet(w.ia[src as usize], w.ia[dst as usize], dp) else { return (None, snaps) };
         let down_at = |n: usize| -> Vec<usize> { if sched.is_empty() { vec![] } else { sched[n.min(sched.len() - 1)].clone() } };
         self.injects += 1;
         *self.by_fam.entry(fam.to_string()).or_insert(0) += 1;
@@ -135,6 +136,9 @@ impl Rec<'_> {
                 self.ev(json!({"ev": "links", "down": down}));
             }
             let pre = world::std_path_of(&pk);
+            if let Some(pm) = &pre {
+                snaps.push((pm.clone(), cur_as, cur_if));
+            }
             let o = world::simulate_sched(w, &mut pk, now, cur_as, cur_if, std::slice::from_ref(&down), 1);
             let Some(s) = o.steps.first() else { break };
             let (mut f0, mut f1) = (json!([]), json!([]));
@@ -158,7 +162,7 @@ impl Rec<'_> {
         }
         *self.by_verdict.entry(last_k.clone()).or_insert(0) += 1;
         w.set_links(&[]);
-        if last_k == "deliver" { Some(pk) } else { None }
+        (if last_k == "deliver" { Some(pk) } else { None }, snaps)
     }
 }
 
@@ -291,12 +295,27 @@ pub fn run(topos: &str, events: &str, results: &str) {
                 let Some(m) = offs[i].model.clone() else { continue };
                 let cls = path_class(&m);
                 let now = TS + 2;
-                if let Some(delivered) = rec.inject(&mut w, "honest", cls, &m, src, dst, src, 0, now, &[]) {
+                let (delivered, snaps) = rec.inject(&mut w, "honest", cls, &m, src, dst, src, 0, now, &[]);
+                if let Some(delivered) = delivered {
                     if let Some(mut r) = world::std_path_of(&delivered) {
                         if r.try_reverse().is_ok() {
                             rec.inject(&mut w, "honest-rev", cls, &r, dst, src, dst, 0, now, &[]);
                         }
                     }
+                }
+                if inject_mode == "all" && snaps.len() > 1 {
+                    // the walked packet injected at a LATER hop of its path with a shifted clock (before the
+                    // timestamp of the current segment / valid / expired), from the link or from inside the AS
+                    let k = 1 + rng.below((snaps.len() - 1) as u64) as usize;
+                    let (pm, at_k, if_k) = snaps[k].clone();
+                    let cur_ts = pm.segments.get(pm.current_info_field as usize).map(|s| s.info_field.timestamp).unwrap_or(now);
+                    let (famc, nowc) = match rng.below(3) {
+                        0 => ("mid-future", cur_ts.saturating_sub(1 + rng.below(50) as u32)),
+                        1 => ("mid-expired", offs[i].exp_fn.unwrap_or(now) + 1 + rng.below(3) as u32),
+                        _ => ("mid-valid", now),
+                    };
+                    let ifin_k = if rng.chance(1, 4) { 0 } else { if_k };
+                    rec.inject(&mut w, famc, cls, &pm, src, dst, at_k, ifin_k, nowc, &[]);
                 }
                 if inject_mode != "all" {
                     continue;
@@ -365,8 +384,13 @@ pub fn run(topos: &str, events: &str, results: &str) {
                         "mut-ingress"
                     }
                     5 => {
-                        nowm = offs[i].exp_fn.unwrap_or(now) + 1 + rng.below(3) as u32;
-                        "mut-expired"
+                        if rng.chance(1, 2) {
+                            nowm = offs[i].exp_fn.unwrap_or(now) + 1 + rng.below(3) as u32;
+                            "mut-expired"
+                        } else {
+                            nowm = m.segments.iter().map(|s| s.info_field.timestamp).max().unwrap_or(now).saturating_sub(1 + rng.below(50) as u32);
+                            "mut-future"
+                        }
                     }
                     7 => {
                         // a link of the path fails (or recovers) while the packet travels
